@@ -28,7 +28,7 @@ THEOREMS = [
     "C12_generated_facts", "C12_generated_hash_freezes_deep", "C12_kept_spec", "C12_eq_spec",
     "C12_distinct_descriptors_unequal", "C12_coincidence_unequal", "C12_eq_spec_grouped", "C12_eq_total",
     "C12_ne_negates", "C12_eq_refl", "C12_eq_sym", "C12_freeze_total", "C12_hashable", "C12_eq_hash",
-    "C12_scope_restored", "C12_scope_restored_nested", "C12_nan", "C12_hyp_satisfiable",
+    "C12_scope_restored", "C12_scope_restored_every_exit", "C12_scope_restored_nested", "C12_nan", "C12_hyp_satisfiable",
 ]
 
 UTC = pydt.timezone.utc
@@ -598,63 +598,87 @@ def configs_for(x, y, rnd):
     return [frozenset(), frozenset(["_generated"]), frozenset([one]), frozenset(several), frozenset(["no_such_field", "_source"])]
 
 
-MECHS = ["set", "ctx", "ctx-raise", "ctx-nested", "ctx-body-sets"]
+from vf.factgen.c12 import SCOPE_KINDS, end_scope  # noqa: E402  (the ways a `with` block can end)
+
+MECHS = (["set"] + ["ctx:" + k for k in SCOPE_KINDS] + ["nested:" + k for k in SCOPE_KINDS]
+         + ["body-sets:normal", "body-sets:exception", "body-sets:generator-close", "cmp-raises", "reenter"])
+OLD_MECHS = {"ctx": "ctx:normal", "ctx-raise": "ctx:exception", "ctx-nested": "nested:exception", "ctx-body-sets": "body-sets:exception"}
+
+
+class _Evil:
+    def __eq__(self, other):
+        raise ZeroDivisionError("comparison raised inside the scope")
+
+    __hash__ = None
 
 
 def under(mech, cfg, prior, fn):
     """run fn() with the ignore set configured through `mech`; returns (result, problem or None) where problem
-    describes a global that is not what it has to be"""
+    describes a global that is not what it has to be.  Mechanisms: `set` (set_ignored_fields_for_comparison),
+    `ctx:<kind>` (the context manager, block ended in the given way), `nested:<kind>` (inside an outer scope, whose
+    override has to be back afterwards), `body-sets:<kind>` (the body sets the ignore set itself), `cmp-raises` (a
+    comparison inside the scope raises), `reenter` (the spent context-manager object is entered a second time)."""
     import flow.record.base as base
     from flow.record import ignore_fields_for_comparison, set_ignored_fields_for_comparison
+    mech = OLD_MECHS.get(mech, mech)
     problem = None
     arg = rnd_iterable(cfg)
     set_ignored_fields_for_comparison(set(prior))
 
+    def now():
+        return set(base.IGNORE_FIELDS_FOR_COMPARISON)
+
     def inside():
         nonlocal problem
-        if set(base.IGNORE_FIELDS_FOR_COMPARISON) != set(cfg) and problem is None:
-            problem = "inside the scope the ignore set is %r, expected %r" % (sorted(base.IGNORE_FIELDS_FOR_COMPARISON), sorted(cfg))
+        if now() != set(cfg) and problem is None:
+            problem = "inside the scope the ignore set is %r, expected %r" % (sorted(now()), sorted(cfg))
         return fn()
+
+    def expect(want, when):
+        nonlocal problem
+        if now() != set(want) and problem is None:
+            problem = "%s the ignore set is %r, it has to be %r" % (when, sorted(now()), sorted(want))
 
     res = None
     try:
         if mech == "set":
             set_ignored_fields_for_comparison(arg)
-            res = inside()
-            return res, problem
-        if mech == "ctx":
-            with ignore_fields_for_comparison(arg):
-                res = inside()
-        elif mech == "ctx-raise":
+            return inside(), problem
+        how, _, kind = mech.partition(":")
+        if how == "ctx":
+            res = end_scope(base, arg, kind, inside, collect=False)
+        elif how == "nested":
+            with ignore_fields_for_comparison(["zz_outer"]):
+                res = end_scope(base, arg, kind, inside, collect=False)
+                expect({"zz_outer"}, "after the inner scope ended (%s), inside the outer scope," % kind)
+                set_ignored_fields_for_comparison(["zz_outer"])
+        elif how == "body-sets":
+            def body():
+                set_ignored_fields_for_comparison(arg)
+                return inside()
+            res = end_scope(base, ["zz_outer"], kind, body, collect=False)
+        elif how == "cmp-raises":
             try:
                 with ignore_fields_for_comparison(arg):
                     res = inside()
-                    raise Boom()
-            except Boom:
+                    _Evil() == 1  # noqa: B015
+            except ZeroDivisionError:
                 pass
             else:
-                problem = problem or "the exception raised inside the scope was swallowed"
-        elif mech == "ctx-nested":
-            with ignore_fields_for_comparison(["zz_outer"]):
-                try:
-                    with ignore_fields_for_comparison(arg):
-                        res = inside()
-                        raise Boom()
-                except Boom:
-                    pass
-                if set(base.IGNORE_FIELDS_FOR_COMPARISON) != {"zz_outer"}:
-                    problem = problem or "after the inner scope the ignore set is %r, expected ['zz_outer']" % sorted(base.IGNORE_FIELDS_FOR_COMPARISON)
-        elif mech == "ctx-body-sets":
+                problem = problem or "the exception raised by a comparison inside the scope was swallowed"
+        elif how == "reenter":
+            cm = ignore_fields_for_comparison(arg)
+            with cm:
+                res = inside()
+            expect(prior, "after the scope ended normally")
             try:
-                with ignore_fields_for_comparison(["zz_outer"]):
-                    set_ignored_fields_for_comparison(arg)
-                    res = inside()
-                    raise Boom()
-            except Boom:
+                with cm:            # a spent context manager: entering it again fails, and must not leave an override behind
+                    pass
+            except Exception:  # noqa
                 pass
-        if set(base.IGNORE_FIELDS_FOR_COMPARISON) != set(prior):
-            problem = problem or "after the scope (%s) the ignore set is %r, it was %r before" % (
-                mech, sorted(base.IGNORE_FIELDS_FOR_COMPARISON), sorted(prior))
+        else:
+            raise ValueError(mech)
+        expect(prior, "after the scope ended (%s)" % mech)
         return res, problem
     finally:
         set_ignored_fields_for_comparison(set())
@@ -937,8 +961,11 @@ def run(ctx):
         "vs member / renamed / shortened / reordered / re-grouped; plus hand-picked edge pairs (NaN, signed zeros, "
         "int/float/bool, dict key order, dicts with keys of different types (plain, nested, grouped), time zones and fold, path/command/digest/ip forms, two descriptors sharing (name, hash) -- plain, nested, grouped, both directions; descriptor pairs whose identifiers collide by construction for 9 type combinations, holding the same values).  "
         "Configurations: {}, {_generated}, one declared field, several declared+reserved, an unknown name; installed by "
-        "set_ignored_fields_for_comparison, the context manager (normal exit, exit by exception, nested, body that sets "
-        "again) and the environment variable in a fresh interpreter.  distinct = distinct (pair kind, shapes of x and y, "
+        "set_ignored_fields_for_comparison, the context manager with the block ended in every way (normally, Exception, "
+        "KeyboardInterrupt, SystemExit, closing / dropping a suspended generator that holds the scope, return, break, "
+        "continue) alone and nested in an outer scope, with a body that sets the ignore set again, with a comparison that "
+        "raises inside the scope, re-entering a spent context manager, each with empty and non-empty prior setting, "
+        "and the environment variable in a fresh interpreter.  distinct = distinct (pair kind, shapes of x and y, "
         "configuration, mechanism, outcome); non-trivial = x and y are different objects.  Value battery: all ordered "
         "pairs of a pool of packed values, (p,) == (q,) and hash agreement against the model.")
     ok = core.standard_proof_stage(ctx, ["props/C12.vo"], "C12", THEOREMS, search_fn=search, gens=["gen_equality"])
